@@ -595,6 +595,211 @@ fn c15_font_gk(f: &Font) -> (GMap, KMap) {
     (g, k)
 }
 
+// ------------------------------------------------------------------ save determinism of built fonts
+/// One call of `font.data.insert` / `font.images.insert`
+#[derive(Clone, Debug)]
+pub struct StoreCall {
+    pub image: bool,
+    pub key: String,
+    pub bytes: Vec<u8>,
+}
+fn calls_json(cs: &[StoreCall]) -> serde_json::Value {
+    serde_json::Value::Array(cs.iter().map(|c| serde_json::json!({"store": if c.image { "images" } else { "data" }, "key": c.key, "bytes": c.bytes})).collect())
+}
+fn calls_from(v: &serde_json::Value) -> Vec<StoreCall> {
+    v.as_array()
+        .map(|a| {
+            a.iter()
+                .map(|c| StoreCall {
+                    image: c["store"].as_str() == Some("images"),
+                    key: c["key"].as_str().unwrap_or("").to_string(),
+                    bytes: c["bytes"].as_array().map(|b| b.iter().map(|x| x.as_u64().unwrap_or(0) as u8).collect()).unwrap_or_default(),
+                })
+                .collect()
+        })
+        .unwrap_or_default()
+}
+
+/// every alias spelling of a relative path: the same file, a different text
+fn aliases(p: &str) -> Vec<String> {
+    let mut v = vec![format!("./{}", p), format!("{}/.", p), format!("{}//", p), format!("a/../{}", p), format!("./././{}", p)];
+    // case variant (a different file on a case-sensitive file system, the same on others)
+    let sw: String = p.chars().map(|c| if c.is_lowercase() { c.to_ascii_uppercase() } else { c.to_ascii_lowercase() }).collect();
+    if sw != p {
+        v.push(sw);
+    }
+    if let Some(i) = p.find('/') {
+        v.push(format!("{}/./{}", &p[..i], &p[i + 1..]));
+        v.push(format!("{}//{}", &p[..i], &p[i + 1..]));
+        v.push(format!("{}/x/../{}", &p[..i], &p[i + 1..]));
+    }
+    v
+}
+
+pub fn gen_store_calls(seed: u64, idx: u64) -> Vec<StoreCall> {
+    let mut r = Rng::new(seed.wrapping_mul(0x2545_F491_4F6C_DD1D) ^ idx.wrapping_mul(0x9E37_79B9_7F4A_7C15) ^ 0x510E);
+    const DK: [&str; 5] = ["notes.txt", "d/e.bin", "d/f/g.txt", "h", "d/i.txt"];
+    const IK: [&str; 2] = ["i.png", "pic.png"];
+    let mut calls = vec![];
+    let mut n = 0u8;
+    let mut png = |tag: u8| {
+        let mut b = vec![0x89, b'P', b'N', b'G', 0x0d, 0x0a, 0x1a, 0x0a];
+        b.push(tag);
+        b
+    };
+    for k in DK.iter() {
+        if r.chance(2, 3) {
+            let mut spell = vec![k.to_string()];
+            spell.extend(aliases(k));
+            // every spelling is attempted, each with its own content, in a random order
+            for i in (1..spell.len()).rev() {
+                let j = r.below(i as u64 + 1) as usize;
+                spell.swap(i, j);
+            }
+            for sp in spell {
+                n = n.wrapping_add(1);
+                calls.push(StoreCall { image: false, key: sp, bytes: vec![n; 1 + (n % 3) as usize] });
+            }
+        }
+    }
+    for k in IK.iter() {
+        if r.chance(1, 2) {
+            let mut spell = vec![k.to_string()];
+            spell.extend(aliases(k));
+            for i in (1..spell.len()).rev() {
+                let j = r.below(i as u64 + 1) as usize;
+                spell.swap(i, j);
+            }
+            for sp in spell {
+                n = n.wrapping_add(1);
+                calls.push(StoreCall { image: true, key: sp, bytes: png(n) });
+            }
+        }
+    }
+    // interleave the calls of different keys
+    for i in (1..calls.len()).rev() {
+        if r.chance(1, 2) {
+            let j = r.below(i as u64 + 1) as usize;
+            calls.swap(i, j);
+        }
+    }
+    calls
+}
+
+/// lexical normal form of a key: its components without `.`; None if it has `..`, a root, ...
+fn plain_path(key: &str) -> Option<Vec<String>> {
+    let mut v = vec![];
+    for c in Path::new(key).components() {
+        match c {
+            std::path::Component::Normal(x) => v.push(x.to_string_lossy().to_string()),
+            std::path::Component::CurDir => {}
+            _ => return None,
+        }
+    }
+    Some(v)
+}
+
+pub struct BuiltOutcome {
+    pub diffs: Vec<String>,
+    pub alias_pairs: Vec<(String, String, String)>, // (store, key, key) accepted and denoting one path
+    pub accepted: Vec<String>,                      // "store:key" in call order (first instance)
+    pub save: String,                               // outcome of the first instance
+    pub data_entries: Vec<(String, Vec<u8>)>,       // accepted keys (plain form) with their final content
+    pub image_entries: Vec<(String, Vec<u8>)>,
+    pub data_obs: StoreObs,
+    pub images_obs: StoreObs,
+    pub model_comparable: bool,
+}
+
+/// build the same font `k` times by the same call sequence (fresh HashMap seeds every time),
+/// save every instance to its own fresh directory: all trees must be byte-identical
+pub fn built_determinism(calls: &[StoreCall], work: &Path, k: usize) -> BuiltOutcome {
+    std::fs::create_dir_all(work).unwrap();
+    let mut diffs = vec![];
+    let mut first_acc: Option<Vec<String>> = None;
+    let mut first_keys: (Vec<String>, Vec<String>) = (vec![], vec![]);
+    let mut first_save = String::new();
+    let mut out = BuiltOutcome {
+        diffs: vec![], alias_pairs: vec![], accepted: vec![], save: String::new(), data_entries: vec![], image_entries: vec![],
+        data_obs: StoreObs::default(), images_obs: StoreObs::default(), model_comparable: false,
+    };
+    for inst in 0..k {
+        let mut acc = vec![];
+        let built = catch(|| {
+            let mut f = Font::new();
+            let mut acc = vec![];
+            for c in calls {
+                let r = if c.image { f.images.insert(PathBuf::from(&c.key), c.bytes.clone()) } else { f.data.insert(PathBuf::from(&c.key), c.bytes.clone()) };
+                if r.is_ok() {
+                    acc.push(format!("{}:{}", if c.image { "images" } else { "data" }, c.key));
+                }
+            }
+            (f, acc)
+        });
+        let f = match built {
+            Ok((f, a)) => {
+                acc = a;
+                f
+            }
+            Err(m) => {
+                diffs.push(format!("building instance #{} panicked: {}", inst, m));
+                continue;
+            }
+        };
+        let dir = work.join(format!("built_{}", inst));
+        let sv = save_hash(&f, &dir).replace(&format!("built_{}", inst), "built_N");
+        if inst == 0 {
+            let mut dk: Vec<String> = f.data.keys().map(|p| p.to_string_lossy().to_string()).collect();
+            dk.sort();
+            let mut ik: Vec<String> = f.images.keys().map(|p| p.to_string_lossy().to_string()).collect();
+            ik.sort();
+            first_keys = (dk, ik);
+            first_acc = Some(acc.clone());
+            first_save = sv.clone();
+            out.data_obs = observe_store(&dir.join("data"));
+            out.images_obs = observe_store(&dir.join("images"));
+            for (keys, is_img) in [(&first_keys.0, false), (&first_keys.1, true)] {
+                for key in keys.iter() {
+                    let bytes = if is_img { f.images.get(Path::new(key)) } else { f.data.get(Path::new(key)) };
+                    if let (Some(Ok(b)), Some(pp)) = (bytes, plain_path(key)) {
+                        let e = (pp.join("/"), b.to_vec());
+                        if is_img {
+                            out.image_entries.push(e)
+                        } else {
+                            out.data_entries.push(e)
+                        }
+                    }
+                }
+            }
+        } else {
+            if Some(&acc) != first_acc.as_ref() {
+                diffs.push(format!("instance #{} accepted a different set of insert calls than instance #0", inst));
+            }
+            if sv != first_save {
+                diffs.push(format!("instance #{} of the same font saved a different tree: {} vs {}", inst, sv, first_save));
+            }
+        }
+        let _ = std::fs::remove_dir_all(&dir);
+    }
+    // two accepted keys that denote the same path: the premise "pairwise distinct paths" of
+    // C10_store_write_commutes fails, the surviving content depends on the write order
+    for (keys, store) in [(&first_keys.0, "data"), (&first_keys.1, "images")] {
+        for i in 0..keys.len() {
+            for j in i + 1..keys.len() {
+                let (a, b) = (plain_path(&keys[i]), plain_path(&keys[j]));
+                if a.is_some() && a == b {
+                    out.alias_pairs.push((store.to_string(), keys[i].clone(), keys[j].clone()));
+                }
+            }
+        }
+    }
+    out.model_comparable = out.alias_pairs.is_empty() && first_save.starts_with("tree:");
+    out.accepted = first_acc.unwrap_or_default();
+    out.save = first_save;
+    out.diffs = diffs;
+    out
+}
+
 pub fn main(a: &Args) {
     // child process: one load, one save, two lines
     if let Some(i) = a.extra.iter().position(|x| x == "--child") {
@@ -622,6 +827,24 @@ pub fn main(a: &Args) {
         let txt = std::fs::read_to_string(rp).expect("replay file");
         let j: serde_json::Value = serde_json::from_str(&txt).expect("json");
         let work = a.out.join("replay10");
+        if j.get("store_calls").is_some() {
+            let calls = calls_from(&j["store_calls"]);
+            let o = built_determinism(&calls, &work, 32);
+            println!("call sequence: {}", calls_json(&calls));
+            println!("accepted: {:?}", o.accepted);
+            println!("save of instance #0: {}", o.save);
+            for (st, x, y) in &o.alias_pairs {
+                println!("determinism oracle FAILS: the {} store accepted the keys {:?} and {:?}, which denote the same file: which content survives depends on the iteration order of the HashMap", st, x, y);
+            }
+            for x in &o.diffs {
+                println!("determinism oracle FAILS: {}", x);
+            }
+            if o.alias_pairs.is_empty() && o.diffs.is_empty() {
+                println!("determinism oracle: 32 instances built by the same calls saved byte-identical trees");
+            }
+            let _ = std::fs::remove_dir_all(&work);
+            return;
+        }
         let d = if let Some(p) = j["fixture"].as_str() {
             run_one(p.to_string(), Some(Path::new(p)), None, &work, 40, 4)
         } else {
@@ -716,6 +939,59 @@ pub fn main(a: &Args) {
             idx += 1;
         }
     }
+    // ---- fonts built k times by the same store calls (alias spellings of every key attempted)
+    let nbuilt = if th { 2000 } else { 160 };
+    let kinst = if th { 16 } else { 8 };
+    let mut store_cases = String::new();
+    let (mut nb_alias, mut nb_model, mut nb_savefail, mut nb_accepted) = (0u64, 0u64, 0u64, 0u64);
+    {
+        let chunkb = (nbuilt + nthreads - 1) / nthreads;
+        let mut outs: Vec<Vec<(usize, Vec<StoreCall>, BuiltOutcome)>> = vec![];
+        std::thread::scope(|sc| {
+            let mut hs = vec![];
+            for t in 0..nthreads {
+                let out = a.out.clone();
+                let seed = a.seed;
+                hs.push(sc.spawn(move || {
+                    let work = out.join(format!("wb_{}", t));
+                    let mut v = vec![];
+                    for i in (t * chunkb)..((t + 1) * chunkb).min(nbuilt) {
+                        let calls = gen_store_calls(seed, i as u64);
+                        let o = built_determinism(&calls, &work, kinst);
+                        v.push((i, calls, o));
+                    }
+                    let _ = std::fs::remove_dir_all(&work);
+                    v
+                }));
+            }
+            for h in hs {
+                outs.push(h.join().unwrap());
+            }
+        });
+        for ch in outs {
+            for (i, calls, o) in ch {
+                let gidx = total + i;
+                nb_accepted += o.accepted.len() as u64;
+                for (st, x, y) in &o.alias_pairs {
+                    nb_alias += 1;
+                    fails.push(serde_json::json!({"index": gidx, "ufo": format!("built font #{}", i),
+                        "what": format!("the {} store accepted the keys {:?} and {:?}, which denote the same file: which content survives a save depends on the iteration order of the HashMap (premise of C10_store_write_commutes fails)", st, x, y),
+                        "alias_pair": [x, y], "store_calls": calls_json(&calls)}));
+                }
+                for x in &o.diffs {
+                    fails.push(serde_json::json!({"index": gidx, "ufo": format!("built font #{}", i), "what": x, "store_calls": calls_json(&calls)}));
+                }
+                if !o.save.starts_with("tree:") {
+                    nb_savefail += 1;
+                }
+                if o.model_comparable {
+                    nb_model += 1;
+                    let _ = writeln!(store_cases, "({}, ({}, {}))", gidx, render_store(&o.data_entries, &o.data_obs, &mut it), render_store(&o.image_entries, &o.images_obs, &mut it));
+                }
+            }
+        }
+    }
+    write_file(&a.out.join("store_cases.txt"), &store_cases);
     write_file(&a.out.join("cases.txt"), &cases);
     write_file(&a.out.join("names.json"), &serde_json::to_string(&it.names).unwrap());
     write_file(&a.out.join("oracle.json"), &serde_json::to_string(&fails).unwrap());
@@ -723,6 +999,8 @@ pub fn main(a: &Args) {
         "ufos": total, "fixtures": fixtures.len(), "generated": ngen, "in_process_loads_per_ufo": runs,
         "child_processes_per_ufo": children, "loaded": nloaded, "converted_groups": nconv,
         "compared_with_model": nmodel, "with_feature_blocks_v1": nfeat, "without_order_list": nnoorder,
+        "built_fonts": nbuilt, "instances_per_built_font": kinst, "built_insert_calls_accepted": nb_accepted,
+        "built_alias_pairs_accepted": nb_alias, "built_compared_with_write_loop_model": nb_model, "built_save_failed": nb_savefail,
         "determinism_failures": fails.len(), "child_runs_skipped": CHILD_SKIPPED.load(std::sync::atomic::Ordering::Relaxed), "labels": labels.iter().take(fixtures.len()).collect::<Vec<_>>(),
     });
     write_file(&a.out.join("summary.json"), &summ.to_string());
